@@ -57,9 +57,14 @@ var plans = map[string][]run{
 	"C01": {{Name: "default", Carry: true}},
 	"C02": {{Name: "default", Carry: true}},
 	"C15": {{Name: "default", Aux: "c15min"}},
+	// the variable-base paths use the table lookups that differ between the assembly and the pure-Go build
+	"C04": {{Name: "default"}, {Name: "purego", Tags: []string{"purego"}}},
+	"C10": {{Name: "default"}, {Name: "purego", Tags: []string{"purego"}}},
+	"C16": {{Name: "default"}, {Name: "purego", Tags: []string{"purego"}}},
 	"C05": {
 		{Name: "asm"},
 		{Name: "purego", Tags: []string{"purego"}},
+		{Name: "checkptr", Race: true},
 	},
 }
 
@@ -70,6 +75,46 @@ var hookDirs = map[string]string{
 	"bitcoin": "secec/bitcoin",
 	"h2c":     "secec/h2c",
 	"swu":     "internal/swu",
+}
+
+// libraryCrash inspects the stderr of a check process that died: if it carries a Go fatal error / panic whose first
+// non-runtime stack frame of the crashing goroutine lies in the library tree (and not in an injected hook file),
+// it returns that frame; otherwise "".
+func libraryCrash(stderr string) string {
+	i := strings.Index(stderr, "fatal error:")
+	if j := strings.Index(stderr, "panic:"); i < 0 || j >= 0 && j < i {
+		if j >= 0 {
+			i = j
+		}
+	}
+	if k := strings.Index(stderr, "SIGSEGV"); i < 0 && k >= 0 {
+		i = k
+	}
+	if i < 0 {
+		return ""
+	}
+	rest := stderr[i:]
+	g := strings.Index(rest, "\ngoroutine ")
+	if g < 0 {
+		return ""
+	}
+	for _, l := range strings.Split(rest[g:], "\n")[1:] {
+		if strings.HasPrefix(l, "goroutine ") && !strings.Contains(l, "[running") {
+			break // next goroutine: the crashing one had no library frame on top
+		}
+		if !strings.HasPrefix(l, "\t/") {
+			continue
+		}
+		f := strings.TrimSpace(l)
+		if strings.Contains(f, "/src/runtime/") || strings.Contains(f, "/src/internal/") || strings.Contains(f, "/src/sync/") || strings.Contains(f, "/src/reflect/") {
+			continue
+		}
+		if strings.HasPrefix(f, repo+"/") && !strings.Contains(f, "zz_verif") {
+			return f
+		}
+		return "" // first user frame is harness code
+	}
+	return ""
 }
 
 func fatal(f string, a ...any) {
@@ -325,7 +370,25 @@ func main() {
 						}
 						fmt.Fprintf(os.Stderr, "vdriver: %s/%s shard %d did not complete (%v)\n%s\n", id, r.Name, s, err, tail)
 						pmu.Lock()
-						infra = true
+						if where := libraryCrash(errb.String()); where != "" {
+							// the check process was killed by a fatal error / unrecovered panic raised in LIBRARY code
+							// (runtime-detected misuse of unsafe, concurrent map access, a fault in assembly, ...): that is a
+							// verdict about the library, not a failure of the machinery
+							ex := errb.String()
+							if i := strings.Index(ex, "fatal error:"); i >= 0 {
+								ex = ex[i:]
+							} else if i := strings.Index(ex, "panic:"); i >= 0 {
+								ex = ex[i:]
+							}
+							if len(ex) > 2500 {
+								ex = ex[:2500]
+							}
+							partials = append(partials, mc.Partial{ID: id, Tier: tier, Configs: []string{r.Name + " (process crashed)"}, Classes: map[string]int64{}, Bounds: map[string]any{},
+								Violations: []mc.Violation{{Property: id, Key: "process crash in library code/" + r.Name, Kind: "crash",
+									Detail: map[string]any{"configuration": r.Name, "shard": s, "first_library_frame": where, "stderr_excerpt": ex, "what": "the check process was killed by a fatal error or unrecovered panic raised in library code"}}}})
+						} else {
+							infra = true
+						}
 						pmu.Unlock()
 						return
 					}
